@@ -71,6 +71,7 @@ NUMERIC = set(range(0, 23))
 CYCLIC = ["(let ((c (list 1 2))) (set-cdr! (cdr c) c) c)", "(let ((v (vector 1 2))) (vector-set! v 0 v) v)"]
 CYCLIC_PROCS = ["list?", "length", "equal?", "display", "write"]
 PROBE = "(+ 1 2)"
+GLOBALS = "(define gv (vector 1 2 3 4)) (define gl (list 1 2 3)) (define gs (make-string 3 #\\a))"
 
 
 def builtin_names():
@@ -138,6 +139,27 @@ def generate(rng, tier):
             for k in (1, 2, 3, 4, 5):
                 for _ in range(per if k <= 2 else 3):
                     calls.append("(%s %s)" % (name, " ".join(rng.choice(PALETTE) for _ in range(k))))
+    # aliasing: the SAME object in two argument positions (session globals gv gl gs), small integers elsewhere
+    import itertools
+    nalias = 0
+    for name in names:
+        combos = []
+        for k in (2, 3, 4, 5):
+            for pos in itertools.combinations(range(k), 2):
+                for obj in ("gv", "gl", "gs"):
+                    combos.append((k, pos, obj))
+        if per is not None:
+            combos = rng.sample(combos, 14)
+        for k, pos, obj in combos:
+            fills = [[0, 1, 2]] * (k - 2)
+            allf = list(itertools.product(*fills)) if fills else [()]
+            if per is not None or len(allf) > 9:
+                allf = rng.sample(allf, min(len(allf), 2 if per is not None else 9))
+            for fl in allf:
+                it = iter(fl)
+                args = [obj if i in pos else str(next(it)) for i in range(k)]
+                calls.append("(%s %s)" % (name, " ".join(args)))
+                nalias += 1
     ncyc = 0
     for p in CYCLIC_PROCS:
         for c in CYCLIC:
@@ -149,7 +171,7 @@ def generate(rng, tier):
     calls = [f for f in calls if not classify_call(f)]
     cases = []
     for i in range(0, len(calls), 6):
-        cases.append(sess(calls[i:i + 6] + [PROBE]))
+        cases.append(sess([GLOBALS] + calls[i:i + 6] + [PROBE]))
     # a session that dies (panic, abort, hang) says nothing about which of its calls did it, and would hide a
     # second failing call: every such session is replaced by one session per call, so that each failing call is
     # classified on its own
@@ -160,7 +182,7 @@ def generate(rng, tier):
     for c, l in zip(cases, lines):
         if _bad(l):
             split += 1
-            kept += [sess([f, PROBE]) for f in forms_of(c)[:-1]]
+            kept += [sess([GLOBALS, f, PROBE]) for f in forms_of(c)[1:-1]]
         else:
             kept.append(c)
     cases = kept + [sess([f, PROBE]) for f in risky]
@@ -186,7 +208,7 @@ def generate(rng, tier):
         elif k < 0.7: cases.append([3, rng.randint(0, len(cps) + 2)] + cps)
         else: cases.append(sess([s, PROBE]))
     return cases, {"builtins": len(names), "calls": len(calls), "cyclic_calls": ncyc, "palette": P,
-                   "exhaustive": per is None, "soup": nsoup, "programs": nprog,
+                   "exhaustive": per is None, "soup": nsoup, "programs": nprog, "aliasing_calls": nalias,
                    "sessions_split_into_single_calls": split, "risky_calls_run_alone": len(risky)}
 
 
@@ -256,6 +278,9 @@ def known_class(case, impl_line, model_line):
     if case[0] not in (70, 72) or not _bad(impl_line):
         return None
     forms = forms_of(case)
+    gi = 1
+    if forms and forms[0] == GLOBALS:
+        forms, gi = forms[1:], 2
     if len(forms) != 2 or forms[1] != PROBE:
         return None
     f = forms[0]
@@ -263,7 +288,8 @@ def known_class(case, impl_line, model_line):
     if fid:
         return fid
     head, _ = _head_args(f)
-    if head in NUMBER_HEADS and impl_line == "PANIC" and model_line.startswith("SESSION | PANIC |"):
+    groups = model_line.split(" LOG")[0].split(" |")
+    if head in NUMBER_HEADS and impl_line == "PANIC" and len(groups) > gi and groups[gi].strip() == "PANIC":
         # the model is the port of num-rational's Ratio<i32> arithmetic: it panics exactly where an i32 overflows
         return "ratio32-overflow-panic"
     return None
